@@ -476,7 +476,7 @@ func init() {
 			{Entry: "HarnessC06Rules", Args: []int64{1, 0}, Bound: "types of depth <= 1 (71) x every single loosening x 40 expression templates x other operand of 5 base types x both operand positions", Require: []string{"compared", "accepted-before"}},
 			{Entry: "HarnessC06Algebra", Args: []int64{2}, Bound: "any-assignability and merge-with-any for all 3305 types of depth <= 2", Require: []string{"compared"}},
 			{Entry: "HarnessC06Template", Bound: "template evaluation, bool, number and if: positions with a value of type any", Require: []string{"checked"}},
-			{Entry: "HarnessC06Pairs", Bound: "both operands of depth <= 1 with innermost types any/number/string (35 x 35) x every single loosening of one x 20 two-operand templates", Require: []string{"compared", "accepted-before"}},
+			{Entry: "HarnessC06Pairs", Bound: "both operands of depth <= 1 with innermost types any/number/string (35 x 35) x every single loosening of one x 38 two-operand templates", Require: []string{"compared", "accepted-before"}},
 			{Entry: "HarnessC05Matrix", Bound: "matrix sections given by expressions (whole matrix, whole include, one include element of object or unknown type): references into them are never reported", Require: []string{"dynamic"}},
 			{Entry: "HarnessC06RulesNarrow", Args: []int64{2}, Bound: "types of depth <= 2 whose innermost types are any/number/string (about 860) x every single loosening x 16 deep expression templates", Require: []string{"compared", "accepted-before"}},
 		}
